@@ -101,6 +101,41 @@ Theorem c18_end_to_end :
 Proof. exact end_to_end. Qed.
 Print Assumptions c18_end_to_end.
 
+(* Polling a growing std.out.  [poll_model t] = what LocalBackend parses when
+   std.out holds [t]: retrieve (drop_unterminated (readlines t)).  For EVERY
+   valid stream and EVERY cut position n (inside the tag, inside a payload,
+   behind a nested "}", anywhere) one poll of the first n characters yields
+   exactly the payloads of the reports whose whole line, newline included, lies
+   inside those n characters, in order ([delivered_upto], model/Report.v). *)
+Theorem c18_polling_prefixes :
+  forall (cs : list chunk) (n : nat), noise_ok cs = true -> payloads_ok cs = true ->
+    poll_model (firstn n (render cs)) = delivered_upto cs n.
+Proof. exact polling_prefixes. Qed.
+Print Assumptions c18_polling_prefixes.
+
+(* hence over any increasing sequence of polls the parsed lists are increasing
+   prefixes of the payloads (nothing lost, duplicated, reordered or invented
+   when a poll lands inside a line), and a poll that sees the whole text
+   parses all of them *)
+Theorem c18_polling_monotone :
+  forall (cs : list chunk) (n m : nat), noise_ok cs = true -> payloads_ok cs = true -> (n <= m)%nat ->
+    (exists k, poll_model (firstn n (render cs)) = firstn k (payloads_of cs)) /\
+    (exists j, poll_model (firstn n (render cs)) = firstn j (poll_model (firstn m (render cs)))) /\
+    ((length (render cs) <= m)%nat -> poll_model (firstn m (render cs)) = payloads_of cs).
+Proof. exact polling_monotone. Qed.
+Print Assumptions c18_polling_monotone.
+
+(* dropping the unterminated last line is what makes this true: bare retrieve
+   on a prefix cut behind a "}" inside a payload finds a fragment that is not a
+   payload (json.loads then raises: finding F-C18-3, fixed by 3359d87), while
+   poll_model on the same prefix finds nothing *)
+Theorem c18_retrieve_on_cut_line_refuted :
+  exists cs n g, noise_ok cs = true /\ payloads_ok cs = true /\
+    findall (firstn n (render cs)) = [g] /\ ~ In g (payloads_of cs) /\
+    poll_model (firstn n (render cs)) = [].
+Proof. exact retrieve_on_cut_line_refuted. Qed.
+Print Assumptions c18_retrieve_on_cut_line_refuted.
+
 (* DESIGN's "rejected reports do not advance the counter" is FALSE of the code
    for reports rejected by serialisation: self.iter += 1 runs before
    _report_logger.  (The property itself only asks for strictly increasing.) *)
